@@ -469,6 +469,13 @@ func init() {
 		}
 		return int64(v)
 	}
+	ext[symPkg+"ParamOr"] = func(fr *frame, a []value) value {
+		i := fr.i
+		if v, ok := i.job.Params[i.cstr(a[0], "sym.ParamOr")]; ok {
+			return int64(v)
+		}
+		return a[1]
+	}
 	ext[symPkg+"Byte"] = func(fr *frame, a []value) value {
 		i := fr.i
 		name := i.cstr(a[0], "sym.Byte")
